@@ -5,7 +5,7 @@ from func_adl.ast.func_adl_ast_utils import change_extension_functions_to_calls,
 
 from vlib.sh.common import HI, LO, TWIN, L, attr, call, const, lam, mcall, name, dump, nt, pick, same_fast, sub, tick
 
-NSHAPES = 6
+NSHAPES = 7
 OPS = list(default_list_of_functions)
 
 
@@ -17,6 +17,22 @@ def opidx(n):
     return -1
 
 
+def ref_custom(n, names):
+    "reference conversion for an explicit list of operator names (concrete)"
+    if isinstance(n, ast.Call):
+        f = ref_custom(n.func, names)
+        args = [ref_custom(a, names) for a in n.args]
+        kws = [ref_custom(k, names) for k in n.keywords]
+        if isinstance(f, ast.Attribute) and f.attr in names:
+            return ast.Call(ast.Name(f.attr, L), [f.value] + args, kws)
+        return ast.Call(f, args, kws)
+    if isinstance(n, ast.AST):
+        return type(n)(**{f: ref_custom(getattr(n, f, None), names) for f in n._fields})
+    if isinstance(n, list):
+        return [ref_custom(x, names) for x in n]
+    return n
+
+
 def ref(n, isop):
     """reference conversion producing a fresh tree (bottom-up); untraced: whether an attribute name is an operator
     was decided before (isop maps id(name object) -> bool)"""
@@ -25,7 +41,7 @@ def ref(n, isop):
         args = [ref(a, isop) for a in n.args]
         kws = [ref(k, isop) for k in n.keywords]
         if isinstance(f, ast.Attribute) and isop[id(f.attr)]:
-            return ast.Call(ast.Name(f.attr, L), [f.value] + args, [])
+            return ast.Call(ast.Name(f.attr, L), [f.value] + args, kws)
         return ast.Call(f, args, kws)
     if isinstance(n, ast.AST):
         return type(n)(**{f: ref(getattr(n, f, None), isop) for f in n._fields})
@@ -55,6 +71,9 @@ def build(shape, n1, n2, na):
         return ast.Call(name(n1), [ast.Call(ast.Attribute(name("ds"), n2, L), [name("a")], []), name("b")] + extra, [])
     if shape == 4:   # attribute that is not called, subscripted attribute that is called (parameterised method)
         return call("h", ast.Attribute(name("ds"), n1, L), ast.Call(sub(ast.Attribute(name("ds"), n2, L), 0), extra, []))
+    if shape == 6:   # operator calls that hand their arguments over by keyword (and a non-operator call with a keyword holding an operator call)
+        inner = ast.Call(ast.Attribute(attr("x", "js"), n2, L), [name("k")] + extra, [ast.keyword("kw", mcall(attr("x", "tr"), "Count"))])
+        return ast.Call(ast.Attribute(name("ds"), n1, L), [], [ast.keyword("f", lam("x", inner))])
     # shape 5: tuple / dict / comparison / conditional around calls at depth 3
     c1 = ast.Call(ast.Attribute(attr("e", "js"), n1, L), [lam("j", ast.Compare(ast.Call(ast.Attribute(attr("j", "tr"), n2, L), extra, []), [ast.Gt()], [const(1)]))], [])
     return mcall(name("ds"), "Where", lam("e", ast.IfExp(name("c"), ast.Tuple([c1, const(1)], L), ast.Dict([const("k")], [c1]))))
@@ -62,7 +81,7 @@ def build(shape, n1, n2, na):
 
 def c17a(code: int, n1: str, n2: str) -> str:
     """
-    pre: LO <= code < HI and 0 <= code < 18
+    pre: LO <= code < HI and 0 <= code < 21
     pre: len(n1) <= 12 and len(n2) <= 12
     post: (_ == '') != TWIN
     """
@@ -78,6 +97,16 @@ def c17a(code: int, n1: str, n2: str) -> str:
                 isop[id(x.attr)] = x.attr in OPS
         expect = ref(q2, isop)
     tick()
+    # history: an earlier call with the caller's own list of names must not change what the default list means afterwards (and is judged itself)
+    with nt():
+        pre_q = ast.parse("ds.Frob(lambda e: e.js.Select(lambda j: j.Frob(1)).Blip(2))", mode="eval").body
+        pre_expect = ref_custom(ast.parse("ds.Frob(lambda e: e.js.Select(lambda j: j.Frob(1)).Blip(2))", mode="eval").body, ["Frob", "Blip"])
+    try:
+        pre_r = change_extension_functions_to_calls(pre_q, ["Frob", "Blip"])
+    except Exception as e:
+        return "raised %s: %s (explicit list of names)" % (type(e).__name__, e)
+    if not same_fast(pre_r, pre_expect):
+        return "wrong conversion with an explicit list of names: " + dump(pre_r)
     try:
         r = change_extension_functions_to_calls(q)
     except Exception as e:
